@@ -1,5 +1,5 @@
 import RJson.Model.Ragel
-import RJson.Proofs.Basic
+import RJson.Proofs.AllBelow
 /-!
 # Simulation certificates between a generated machine and an abstract machine
 
